@@ -55,6 +55,23 @@ func runSpecialLeaf(c *core.Ctx) {
 				c.Ob(load.FnName(fn)+": redact.Safe(<sentinel>.Error())", call.Pos(), true, "the text declared safe is the constant text of a standard-library sentinel ("+why+")")
 				return
 			}
+			if errP != nil && x == ssa.Value(errP) {
+				// a merged typed arm (case runtime.Error, syscall.Errno:) prints the error itself: every edge into the
+				// arm is the success of an assertion to a type whose text is safe by contract
+				if ts := typedArmTypes(call.Block(), errP); len(ts) > 0 {
+					all := true
+					for _, t := range ts {
+						if contractSafeErrText[load.TypeName(t)] == "" {
+							all = false
+						}
+					}
+					if all {
+						nA++
+						c.Ob(load.FnName(fn)+": redact.Safe(err.Error()) in a typed arm", call.Pos(), true, "the arm is entered only for "+typeList(ts)+", whose texts are safe by contract")
+						return
+					}
+				}
+			}
 			if errP == nil || x != ssa.Value(errP) {
 				return // typed cases (runtime.Error, syscall.Errno, ...): R-TAINT's contract table
 			}
@@ -432,4 +449,34 @@ func isStdlibPath(path string) bool {
 		first = path[:i]
 	}
 	return !strings.Contains(first, ".")
+}
+
+// typedArmTypes: the types T such that block b (or a block that dominates it) is entered only over true edges of
+// `v.(T)` comma-ok assertions - the arm of a type switch, possibly with several types.
+func typedArmTypes(b *ssa.BasicBlock, v ssa.Value) []types.Type {
+	for blk := b; blk != nil; blk = blk.Idom() {
+		if len(blk.Preds) == 0 {
+			continue
+		}
+		var ts []types.Type
+		ok := true
+		for _, p := range blk.Preds {
+			found := false
+			for _, l := range edgeLits(p, blk) {
+				if ex, isEx := l.V.(*ssa.Extract); isEx && ex.Index == 1 && !l.Neg {
+					if ta, isTA := ex.Tuple.(*ssa.TypeAssert); isTA && ta.X == v {
+						ts = append(ts, ta.AssertedType)
+						found = true
+					}
+				}
+			}
+			if !found {
+				ok = false
+			}
+		}
+		if ok && len(ts) > 0 {
+			return ts
+		}
+	}
+	return nil
 }
